@@ -28,8 +28,9 @@ def classify(direction, m, what):
         return 'read-file-record-response-layout'
     if direction == 'resp' and t == 'readWrite' and what == 'history':
         return 'readwrite-response-accumulates'
-    if direction == 'req' and t == 'diag' and m['message']['k'] != 'int':
-        return 'diag-request-multiword'
+    if direction == 'req' and t == 'diag' and m['message']['k'] != 'int' and \
+            not (m['message']['k'] == 'list' and len(m['message']['ws']) == 1):
+        return 'diag-request-multiword'       # only a request whose data is not exactly one word
     return None
 
 
